@@ -131,7 +131,7 @@ class Index:
             return "none"
         if isinstance(a, ast.Constant) and isinstance(a.value, str):
             try:
-                return self.conv(ast.parse(a.value, mode="eval").body)
+                return self.conv(ast.parse(a.value, mode="peval").body)
             except SyntaxError:
                 return "unknown"
         if isinstance(a, ast.Attribute):
@@ -741,19 +741,19 @@ class Tx:
         out = []
         for i, s in enumerate(body):
             out.append(self.stmt(s))
-        out = [o for o in out if o != "SSkip"] or ["SSkip"]
+        out = [o for o in out if o != "PSkip"] or ["PSkip"]
         r = out[-1]
         for o in reversed(out[:-1]):
-            r = "(SSeq %s %s)" % (o, r)
+            r = "(PSeq %s %s)" % (o, r)
         return r
 
     def stmt(self, s):
         if isinstance(s, ast.Expr) and isinstance(s.value, ast.Constant):
-            return "SSkip"
+            return "PSkip"
         if isinstance(s, ast.Pass):
-            return "SSkip"
+            return "PSkip"
         if isinstance(s, ast.Return):
-            return "(SRet %s)" % (self.expr(s.value) if s.value is not None else "ENone")
+            return "(PRet %s)" % (self.expr(s.value) if s.value is not None else "ENone")
         if isinstance(s, (ast.Assign, ast.AnnAssign)):
             tgts = s.targets if isinstance(s, ast.Assign) else [s.target]
             if len(tgts) != 1 or s.value is None:
@@ -762,24 +762,24 @@ class Tx:
             if isinstance(t, ast.Name):
                 v = self.value_expr(s.value)
                 self.locals.add(t.id)
-                return "(SAssign %s %s)" % (cstr(t.id), v)
+                return "(PAssign %s %s)" % (cstr(t.id), v)
             if isinstance(t, ast.Subscript) and isinstance(t.value, ast.Name) and t.value.id in self.locals:
-                return "(SSetItem %s %s %s)" % (cstr(t.value.id), self.expr(t.slice), self.expr(s.value))
+                return "(PSetItem %s %s %s)" % (cstr(t.value.id), self.expr(t.slice), self.expr(s.value))
             raise Fail("assignment target not understood: %s" % ast.unparse(s)[:80])
         if isinstance(s, ast.If):
             t = s.test
             a = self.stmts(s.body)
-            b = self.stmts(s.orelse) if s.orelse else "SSkip"
+            b = self.stmts(s.orelse) if s.orelse else "PSkip"
             if isinstance(t, ast.Call) and isinstance(t.func, ast.Name) and t.func.id == "isinstance" and len(t.args) == 2 \
                     and isinstance(t.args[0], ast.Name) and isinstance(t.args[1], ast.Name) and t.args[0].id in self.locals | self.bound:
-                return "(SIfInst %s %s %s %s)" % (cstr(t.args[0].id), cstr(t.args[1].id), a, b)
-            return "(SIf %s %s %s)" % (self.cond(t), a, b)
+                return "(PIfInst %s %s %s %s)" % (cstr(t.args[0].id), cstr(t.args[1].id), a, b)
+            return "(PIf %s %s %s)" % (self.cond(t), a, b)
         if isinstance(s, ast.For) and not s.orelse and isinstance(s.target, ast.Tuple) and len(s.target.elts) == 2 \
                 and all(isinstance(x, ast.Name) for x in s.target.elts):
             it = self.expr(s.iter)
             k, v = s.target.elts[0].id, s.target.elts[1].id
             self.locals |= {k, v}
-            return "(SForPair %s %s %s %s)" % (cstr(k), cstr(v), it, self.stmts(s.body))
+            return "(PForPair %s %s %s %s)" % (cstr(k), cstr(v), it, self.stmts(s.body))
         if isinstance(s, ast.Expr) and isinstance(s.value, ast.Call) and isinstance(s.value.func, ast.Attribute):
             f = s.value.func
             # x.update({...}) on a local dict
@@ -790,20 +790,20 @@ class Tx:
                 for k, v in zip(d.keys, d.values):
                     if not (isinstance(k, ast.Constant) and isinstance(k.value, str)):
                         raise Fail("update() key not a str constant")
-                    out.append("(SSetItem %s (EStr %s) %s)" % (cstr(f.value.id), cstr(k.value), self.expr(v)))
-                r = out[-1] if out else "SSkip"
+                    out.append("(PSetItem %s (EStr %s) %s)" % (cstr(f.value.id), cstr(k.value), self.expr(v)))
+                r = out[-1] if out else "PSkip"
                 for o in reversed(out[:-1]):
-                    r = "(SSeq %s %s)" % (o, r)
+                    r = "(PSeq %s %s)" % (o, r)
                 return r
             # self._events.append(record): the value appended is what the method "returns" in the model
             if f.attr == "append" and ast.unparse(f.value) == "self._events" and len(s.value.args) == 1:
                 self.extra["appends"] = True
-                return "(SRet %s)" % self.expr(s.value.args[0])
+                return "(PRet %s)" % self.expr(s.value.args[0])
             # the record handed to log_event
             if f.attr == "log_event" and self.mode == "event":
                 kw = {k.arg: k.value for k in s.value.keywords}
                 self.extra["event"] = (ast.unparse(kw.get("category")), ast.unparse(kw.get("event")))
-                return "(SRet %s)" % self.expr(kw["data"])
+                return "(PRet %s)" % self.expr(kw["data"])
         raise Fail("statement not understood: %s" % ast.unparse(s)[:80])
 
     def cond(self, t):
@@ -1038,17 +1038,17 @@ def event_records(ix, rels, used):
                     sub = Tx(ix, Ctx(ix.classes[ix.find_method(var, "get_log_data")[1]].mod, var, ix.find_method(var, "get_log_data")[0]), "event")
                     sub.params = tx.params
                     sub.used_classes = tx.used_classes
-                    pre = [sub.stmt(x) for x in inner] + ["(SAssign %s %s)" % (cstr(tgt.id), sub.expr(ret))]
+                    pre = [sub.stmt(x) for x in inner] + ["(PAssign %s %s)" % (cstr(tgt.id), sub.expr(ret))]
                     tx.locals |= sub.locals | {tgt.id}
                     stmts = stmts[1:]
                     label += " [%s]" % var
                 else:
                     pre = []
                 parts = pre + [tx.stmt(x) for x in stmts] + [tx.stmt(s)]
-                parts = [p for p in parts if p != "SSkip"]
+                parts = [p for p in parts if p != "PSkip"]
                 term = parts[-1]
                 for p in reversed(parts[:-1]):
-                    term = "(SSeq %s %s)" % (p, term)
+                    term = "(PSeq %s %s)" % (p, term)
                 used |= tx.used_classes
                 records.append((label, kw["category"].value + ":" + kw["event"].value, tx.params, term))
         if found != n_calls:
